@@ -9,7 +9,10 @@ WRAP = ["-Wl,--wrap=" + s for s in ("_ZNSi4peekEv", "_ZNSi3getEv", "_ZNSi8readso
                                     "_ZNSi5seekgElSt12_Ios_Seekdir")]
 
 # FMT -> (name, libs, floor quick, floor thorough)
-FORMATS = [(0, "bmp", [], 9000, 60000), (1, "pnm", [], 5000, 30000), (2, "targa", [], 5000, 30000)]
+# PNG (C11_FMT=3) could not be registered on the pinned tree: a truncated PNG never terminated inside libpng through *every*
+# device (GIL's read callback ignored short reads) and flooded the log; registered since the fix: commit 7ce10e0.
+FORMATS = [(0, "bmp", [], 12000, 12000), (1, "pnm", [], 4000, 4000), (2, "targa", [], 4500, 4500),
+           (3, "png", IOLIBS, 1000, 1000), (4, "jpeg", IOLIBS, 2500, 2500), (5, "tiff", IOLIBS, 7000, 7000)]
 
 CFG = dict(
     level="exploration",
@@ -37,15 +40,19 @@ CFG = dict(
     exhaustive_domain={"quick": "all truncation lengths of the seeds <= 2 KB (crafted small files of every variant, written files, g01*/g04rle/g08rle); head 192 bytes + strided beyond for larger seeds",
                        "thorough": "all truncation lengths of the seeds <= 4 KB; head 512 bytes + 384 strided points beyond for larger seeds"},
     types=["bmp: rgb8 rgba8 (+ read_and_convert to rgb8 gray8 rgba8); palette 1/4/8, RLE4/8, OS/2, 555/565/32-bit bit-fields, 24, 32, v4 header, top-down",
-           "pnm: gray8 rgb8 gray1; P1-P6", "targa: rgb8 rgba8; raw/RLE x both origins"],
+           "pnm: gray8 rgb8 gray1; P1-P6", "targa: rgb8 rgba8; raw/RLE x both origins",
+           "jpeg: gray8 rgb8 cmyk8 (files written by GIL + fixtures)", "tiff: gray8 rgb8 rgba8 rgb16 gray1 (strip/tiled, none/LZW/packbits/deflate; std::istream and file name only)",
+           "png: PngSuite fixtures + written files (registered after the short-read fix)"],
     assumptions=["accepted outcomes: return, std::ios_base::failure, any other std::exception (counted), bad_alloc from the 256 MiB cap",
                  "step budget: reads returning nothing at EOF <= 4096 + 8*min(declared pixels + declared palette entries, 4Mi); "
-                 "bytes requested <= 64 + 16*(len + min(4*declared pixels, 256Mi)); 'declared' comes from the harness's own parse of the presented bytes",
+                 "bytes delivered + read calls <= 64 + 16*(len + min(4*declared pixels, 256Mi)); 'declared' comes from the harness's own parse of the presented bytes",
+                 "glibc does not call a FILE* cookie again after EOF: a decoder spinning at EOF on a FILE* is only caught by the 200 s CPU safety net (key monitor.cpu-safety-net)",
+                 "headers declaring more than 2 Mi pixels run a reduced entry set (info, read_image, scanline); the scanline loop pulls at most 70000 rows",
                  "the in-process differential needs ASAN_OPTIONS detect_stack_use_after_return=0 (set for these runs)",
                  "a decoder that accepts a truncated file and returns an image is counted (ok-on-truncated.*), not alarmed",
                  "leak detection off (third-party error paths)",
                  "std::istream seek semantics of std::stringbuf (positions beyond the end fail)"],
-    tus=[tu("c11_f%d" % k, SRC, "asan", extra=["-DC11_FMT=%d" % k] + WRAP, libs=libs, deps=DEPS) for k, _, libs, _, _ in FORMATS],
+    tus=[tu("c11_f%d" % k, SRC, "asan", extra=["-DC11_FMT=%d" % k, "-fno-sanitize=alignment"] + WRAP, libs=libs, deps=DEPS) for k, _, libs, _, _ in FORMATS],
     runs=[run("c11_f%d" % k, shards=16, min_cases={"quick": fq, "thorough": ft}, max_restarts=3000,
               asan_extra="detect_stack_use_after_return=0", timeout={"quick": 1500, "thorough": 5400})
           for k, _, _, fq, ft in FORMATS],
